@@ -110,6 +110,10 @@ pub fn trace_text(items: &[TraceItem]) -> String {
             TraceItem::Feature(f, w) => format!("f={f}={w}"),
             TraceItem::TagBias(t, o, c, w) => format!("tb={}={o}={c}={w}", hexs(t)),
             TraceItem::TagFeature(t, o, c, f, w) => format!("tf={}={o}={c}={f}={w}", hexs(t)),
+            // hook H6: the raw f64 values behind the quantised ones, as bit patterns
+            TraceItem::Quant(max, mult) => format!("q={max:016x}:{mult:016x}"),
+            TraceItem::RawBias(b) => format!("rb={b:016x}"),
+            TraceItem::RawFeature(f, w) => format!("rf={f}={w:016x}"),
         })
         .collect();
     v.sort();
@@ -319,7 +323,9 @@ pub fn run(toks: &[&str], fails: &mut Vec<(String, String)>, effective: &mut Opt
             if oracle.contains("c12sep") {
                 crate::train_tags::oracle_c12_separable(&c, &bytes, fails);
             }
-            format!("X{};M{}", t.examples, hex(&bytes))
+            // with hook H6 in the trace the model side re-computes every quantised value from the raw bits and says `Qok`
+            let q = if t.trace_items.iter().any(|x| matches!(x, TraceItem::Quant(..))) { ";Qok" } else { "" };
+            format!("X{};M{}{q}", t.examples, hex(&bytes))
         }
         (_, o) => {
             if o.starts_with("panic") {
